@@ -40,7 +40,7 @@ def hostile_family(seed, n):
                 if rnd.random() < 0.5:
                     p["help"] = p["help"] + pe(" " + rnd.choice(HOSTILE_TEXT))
             for c in t.get("cmds", []):
-                if rnd.random() < 0.5:
+                if c["help"] and rnd.random() < 0.5:
                     c["help"] = c["help"] + pe(" " + rnd.choice(HOSTILE_TEXT[:10]))
     return fam, clean
 
